@@ -319,4 +319,13 @@ def search(pid, a, seed, env, work):
 
 
 if __name__ == '__main__':
-    sys.exit(main())
+    try:
+        rc = main()
+    except SystemExit:
+        raise
+    except BaseException:       # noqa: anything that escapes is a harness error, never a verdict
+        import traceback
+        traceback.print_exc()
+        print('HARNESS-ERROR the runner itself failed')
+        rc = 2
+    sys.exit(rc)
